@@ -12,6 +12,8 @@ OBLIGATIONS = [
     "Pkgcore.C13.maskOk_eq_spec",
     "Pkgcore.C13.allowed_eq_spec",
     "Pkgcore.C13.kwOk_eq_spec",
+    "Pkgcore.C13.empty_entry_means_testing_arch",
+    "Pkgcore.C13.empty_entry_means_nothing_when_unstable",
     "Pkgcore.C13.license_accept_pointwise",
     "Pkgcore.C13.license_dnf_to_formula",
     "Pkgcore.C13.licOk_eq_spec",
@@ -35,7 +37,11 @@ RULE = ("a case = one generated repository (8-10 packages over 2 categories x 4 
         "mixes, LICENSE and/or expressions up to depth 3, repository package.mask, license_groups with nesting), a profile chain of 1-3 "
         "nodes (package.mask with removals, package.unmask, package.keywords, package.accept_keywords, make.defaults) and a user "
         "configuration (package.mask/unmask/accept_keywords/keywords/license as files or directories, ACCEPT_KEYWORDS, ACCEPT_LICENSE), "
-        "every package decided; non-trivial = at least two of the three filters have something configured that matches the package, "
+        "every package decided; plus the bounded-exhaustive keyword matrix: one configuration per subset of the ACCEPT_KEYWORDS token "
+        "universe {amd64, ~amd64, x86, ~x86, *, ~*, **} (quick: subsets of at most two tokens; thorough: all subsets, universe extended by "
+        "~arm64; handed over via make.defaults, the domain settings or split over both), each holding every kind of per-package entry "
+        "(none, empty, ~amd64, **, *, ~*, ~x86, x86 ~arm64) once and every package keyword set under every name; "
+        "non-trivial = at least two of the three filters have something configured that matches the package, "
         "or the verdicts of the three filters are not all equal")
 LEVEL_TEXT = ("Kernel-checked Lean 4 theorems about a model of domain.filter_repo/generate_filter and the keywords and license filters: "
               "visible = not masked (mask stacking is last-writer-wins, net of unmasks) and some keyword accepted (accepted set = ARCH, "
